@@ -36,7 +36,7 @@ def _same(a, b):
 def run(chk, facts, rule='C03-R34'):
     chk.rule(rule, 's[strlen(s) - 1] (also through a local that holds strlen(s)) is evaluated only where s is known not to be '
              'empty: behind a test of its first character or length, a successful search or prefix comparison in it, or on '
-             'a reference that starts inside a longer string', min_instances=25)
+             'a reference that starts inside a longer string', min_instances=100)
     seen = set()
     n = 0
     for exe in PROGRAMS:
